@@ -629,6 +629,11 @@ def r3(ctx, repo):
                     pols.append((op == "NotEq") == pol)  # True: this path is the multi-step one
                 elif other == ("const", 1) and op in ("Gt", "LtE") and cond[2] == one:
                     pols.append((op == "Gt") == pol)
+                elif is_const(other) and isinstance(other[1], int) and op in ("Eq", "NotEq"):
+                    ctx.violation("R3", C + ":single-step-test", "forecasts are treated as single-step when their length is %r, not 1: "
+                                  "%s-step forecasts are concatenated without cutoff labels and 1-step forecasts are not" % (other[1], other[1]),
+                                  loc_of(c), witness={"fh": list(range(1, max(other[1], 1) + 1))})
+                    pols.append(True)
                 else:
                     pols.append(None)
         if pols:
@@ -643,9 +648,12 @@ def r3(ctx, repo):
             if isinstance(v_, tuple) and v_[0] == "item" and v_[1] == ("getattr", frame, "iloc"):
                 single = None
                 for cond, pol, origin in fres.facts(r_):
-                    if isinstance(cond, tuple) and cond[0] == "cmp" and ncols in (cond[2], cond[3]) and ("const", 1) in (cond[2], cond[3]) \
-                            and cond[1] in ("Eq", "NotEq"):
-                        single = (cond[1] == "Eq") == pol
+                    if isinstance(cond, tuple) and cond[0] == "cmp" and ncols in (cond[2], cond[3]) and cond[1] in ("Eq", "NotEq"):
+                        k_ = cond[3] if cond[2] == ncols else cond[2]
+                        if k_ == ("const", 1):
+                            single = (cond[1] == "Eq") == pol
+                        elif is_const(k_) and isinstance(k_[1], int):
+                            single = False  # one column is returned when there are k != 1 windows
                 ctx.check(single, "R3", C + ":all-windows-returned", "a single column is returned only when there is a single window",
                           "only one window's forecasts are returned although there are several (column shortcut on the wrong branch)", loc_of(r_))
         base = c.base
@@ -841,6 +849,40 @@ def r3_helpers(ctx, repo):
            roots=("sktime/forecasting/trend.py", "sktime/forecasting/base/adapters/_statsmodels.py", FH_MOD, DT_MOD))
 
 
+# ------------------------------------------------------------------------------------------ R2/R4: the default of update_params
+DEFAULT_TRUE = ((SK, "_SktimeForecaster", "R2"), (BASE, "BaseForecaster", "R2"), (ENS, "EnsembleForecaster", "R4"), (STACK, "StackingForecaster", "R4"),
+                (MUX, "MultiplexForecaster", "R4"), (PIPE, "TransformedTargetForecaster", "R4"), (THETA, "ThetaForecaster", "R2"),
+                (DETREND, "Detrender", "R4"))
+
+
+def update_defaults(ctx, repo):
+    """"A forecaster that refits on update ..." is about ``update(y_new)`` as it is called: the default of ``update_params``
+    is part of the mechanism.  The base default must be True (refit); composites that forward the flag explicitly must
+    have the same default as the interface they forward to, otherwise ``composite.update(y)`` silently differs from
+    updating its parts.  (OnlineEnsembleForecaster and the tuner document ``False`` and are reported as information.)"""
+    base_fn = repo.func(BASE, "BaseForecaster.update")
+    base_default = astq.const_value(astq.param_defaults(base_fn).get("update_params"), "?")
+    for path, cname, rule in DEFAULT_TRUE:
+        fn = repo.func(path, cname + ".update")
+        d = astq.param_defaults(fn).get("update_params")
+        loc = ctx.loc(repo.module(path), fn)
+        key = cname + ".update:default-update_params"
+        if d is None or not isinstance(d, ast.Constant):
+            ctx.undecided(rule, key, "update_params has no constant default", loc)
+            continue
+        if cname in ("_SktimeForecaster", "BaseForecaster"):
+            ctx.check(d.value is True, rule, key, "update(y) refits by default (update_params=True)",
+                      "update(y) no longer re-estimates by default (update_params=%r): fit(y1); update(y2) differs from a fresh fit" % (d.value,), loc)
+        else:
+            ctx.check(d.value == base_default, rule, key, "same default as the forecaster interface (%r)" % (base_default,),
+                      "%s.update(y) defaults to update_params=%r but the estimators it forwards to default to %r: updating the composite differs "
+                      "from updating its parts" % (cname, d.value, base_default), loc)
+    for path, cname in ((ONLINE, "OnlineEnsembleForecaster"), (TUNE, "BaseGridSearch")):
+        d = astq.param_defaults(repo.func(path, cname + ".update")).get("update_params")
+        if isinstance(d, ast.Constant) and d.value != base_default:
+            ctx.info("%s.update defaults to update_params=%r (interface default %r): documented deviation, information only" % (cname, d.value, base_default))
+
+
 # ------------------------------------------------------------------------------------------ R4
 COMPOSITES = (
     (ENS, "EnsembleForecaster", True),
@@ -973,6 +1015,13 @@ def r4(ctx, repo):
             cov = res.unconditional(e, allow_loops=(lid,) if lid else (), allow=allowed) and covers and (lid is None or loop_plain(res, lid))
             ctx.check(cov, "R4", K + ":coverage", "every inner estimator is updated on every path",
                       "not every inner estimator is updated on every path (conditional or partial loop)", loc_of(e))
+        if is_sk is None:
+            val = [e for e in res.calls("check_series", kind=("inline", "call")) if e.bound]
+            if len(val) == 1:
+                ae = val[0].bound.get("allow_empty")
+                ctx.check(ae == ("const", True) if is_const(ae) else None, "R4", C + ":allow-empty", "an empty batch is accepted (allow_empty=True)",
+                          "%s.update rejects an empty batch (allow_empty=%s): a pipeline containing it fails in update_predict whenever a window "
+                          "brings no new data (the forecaster side accepts it)" % (cname, res.fmt(ae)), loc_of(val[0]))
         if cname == "TransformedTargetForecaster":
             ctx.check("transformers" in seen, "R4", C + ":transformers:present", "the transformers are updated",
                       "the transformers are never updated (their time reference / inner models fall behind the data)", loc0)
@@ -1002,6 +1051,7 @@ def run(ctx):
     r3(ctx, repo)
     r3_steps(ctx, repo)
     r3_helpers(ctx, repo)
+    update_defaults(ctx, repo)
     r4(ctx, repo)
     # floors (today: R1 10, R2 13, R3 86, R4 61 instances): a vanished family fails closed
     ctx.floor("R1", 8)
